@@ -881,6 +881,41 @@ fn c11_linear(lo: i64, hi: i64, seed: u64, out: &mut Out) {
   use tyme4rs::tyme::sixtycycle::{SixtyCycleYear, SixtyCycleMonth, SixtyCycleDay, SixtyCycleHour};
   use tyme4rs::tyme::festival::{SolarFestival, LunarFestival};
   let mut rng = seed ^ 0x5151 ^ ((lo as u64) << 9);
+  if lo <= 1 {
+    // lower end of the supported range: sexagenary months of years -1, 0, 1 and lunar festivals of years 0, 1 stepped across
+    // year 0 / -1 ("results stay in range": sexagenary and lunar years start at -1)
+    for yy in [-1isize, 0, 1] {
+      for idx in 0..12isize {
+        for n in [-13isize, -12, -1, 1, 12, 13, 25] {
+          let t = yy * 12 + idx + n;
+          if t < -12 { continue; }
+          out.evaluations += 1;
+          let r = guard(|| { let x = SixtyCycleMonth::from_index(yy, idx); let z = x.next(n); let back = z.next(-n);
+            (x.get_sixty_cycle_year().get_year() * 12 + x.get_index_in_year() as isize, z.get_sixty_cycle_year().get_year() * 12 + z.get_index_in_year() as isize, back == x && back.get_sixty_cycle_year() == x.get_sixty_cycle_year(),
+             z == SixtyCycleMonth::from_index(t.div_euclid(12), t.rem_euclid(12)) && z.get_sixty_cycle_year().get_year() == t.div_euclid(12)) });
+          match r {
+            Some((o0, o1, back, same)) => if o1 - o0 != n || !back || !same { out.fail(format!("unit:SixtyCycleMonth:{}:{}:{}", yy, idx, n), format!("position {} -> {}, there-and-back {}, equals the month at that position {}", o0, o1, back, same)); },
+            None => out.fail(format!("unit:SixtyCycleMonth:{}:{}:{}", yy, idx, n), "panic".into()),
+          }
+        }
+      }
+    }
+    for yy in [0isize, 1] {
+      for idx in [0usize, 5, 12] {
+        for n in [-1isize, -5, -13, -14, -20] {
+          let t = yy * 13 + idx as isize + n;
+          if t < 0 { continue; }   // lunar year -1 has no constructible months (LunarMonth::new needs the year before): out of range
+          if t.div_euclid(13) == 0 && (t.rem_euclid(13) == 4 || t.rem_euclid(13) == 10) { continue; }   // term festivals of lunar year 0 fall in civil year 0: out of range
+          out.evaluations += 1;
+          let r = guard(|| { let f = LunarFestival::from_index(yy, idx).unwrap(); (f.next(n), LunarFestival::from_index(t.div_euclid(13), t.rem_euclid(13) as usize)) });
+          match r {
+            Some((got, want)) => if got != want { out.fail(format!("unit:LunarFestival:{}:{}:{}", yy, idx, n), format!("{:?} want {:?}", got.map(|x| x.to_string()), want.map(|x| x.to_string()))); },
+            None => out.fail(format!("unit:LunarFestival:{}:{}:{}", yy, idx, n), "panic".into()),
+          }
+        }
+      }
+    }
+  }
   for y in lo..=hi {
     if y < 70 || y > 9930 || (y >= 230 && y <= 245) { continue; }
     let yi = y as isize;
